@@ -382,4 +382,68 @@ def resolveNowAtomic (s : W) : Option W :=
       | some s4 => some s4
       | none => some s3
 
+/-! ## (c) options: `ResolverOpts.withDefaults` and `NewResolverBuilder` -/
+
+/-- The value fields of `ResolverOpts` (`time.Duration` in nanoseconds; `Logger` is not modelled). -/
+structure Opts where
+  pollInterval : Int
+  reqTimeout : Int
+  recursionLimit : Int
+  ignorePrefixes : List Bytes
+  pollManually : Bool
+  onlyServices : Bool
+deriving DecidableEq, Repr
+
+def second : Int := 1000000000
+def millisecond : Int := 1000000
+
+/-- `ResolverOpts.withDefaults`, branch by branch. -/
+def withDefaults (o : Opts) : Opts :=
+  { o with
+    pollInterval := if o.pollInterval = 0 then 5 * 60 * second
+                    else if o.pollInterval < second then second else o.pollInterval
+    reqTimeout := if o.reqTimeout = 0 then 10 * second
+                  else if o.reqTimeout < millisecond then millisecond else o.reqTimeout
+    recursionLimit := if o.recursionLimit = 0 then 100
+                      else if o.recursionLimit < 0 then 0 else o.recursionLimit }
+
+/-- `NewResolverBuilder`: defaults, then `"grpc."` appended to the ignore prefixes. `Build` copies
+    these options into every resolver and gives each resolver its OWN `methodPriority`
+    (`slices.Clone(reflectionMethods)`, i.e. `RState.init`). -/
+def builderOpts (o : Opts) : Opts :=
+  let d := withDefaults o
+  { d with ignorePrefixes := d.ignorePrefixes ++ [grpcPrefix] }
+
+/-! ## (d) `aggregateWatcher` (reflection.go): fan-out to every watcher, in order -/
+
+/-- One call on the aggregate (`UpdateDesc`, `ReportError` or `Close`, whatever `α` encodes) becomes
+    the same call on watcher 0, 1, …, n-1 in this order. -/
+def fanout {α : Type} (n : Nat) (e : α) : List (Nat × α) := (List.range n).map (fun i => (i, e))
+
+/-- The totally ordered log of calls received by the `n` watchers for a sequence of calls on the aggregate. -/
+def aggregateLog {α : Type} (n : Nat) (evs : List α) : List (Nat × α) := evs.flatMap (fanout n)
+
+/-- What watcher `i` sees of such a log. -/
+def observedBy {α : Type} (i : Nat) (log : List (Nat × α)) : List α :=
+  log.filterMap (fun p => if p.1 = i then some p.2 else none)
+
+/-! ## (e) a further `Close()` call: `r.done <- struct{}{}` on the done channel -/
+
+inductive SendOutcome where
+  /-- a receiver is ready (the poller's select): the send may be taken -/
+  | delivered
+  /-- channel open, nobody receives: the sender blocks (and panics when the channel gets closed) -/
+  | blocked
+  /-- `close(r.done)` has been executed: send on closed channel -/
+  | panics
+deriving DecidableEq, Repr
+
+/-- Go semantics of the send executed by a `Close()` call OTHER than the one the poller served,
+    attempted in state `s`: the poller receives from `done` only in its select and closes the
+    channel right before it returns. -/
+def sendOnDone (s : W) : SendOutcome :=
+  if s.ppc = .exited then .panics
+  else if s.ppc = .atSelect then .delivered
+  else .blocked
+
 end GB.C15
